@@ -36,6 +36,11 @@ func checkC05(ctx *Ctx) *Result {
 	r.rule("R5.2", "closed error universe: only *cfgerrors.T and errors.Join reach an error result; Reason/Type constants from the documented vocabularies", 20)
 	r.rule("R5.4", "every Error() method of cfgerrors returns a message starting with `cors: `", 8)
 	r.rule("R4.7", "publication on error-free exits", 8)
+	// the methods oracle accepts Value = Normalize(element) for a forbidden
+	// method because Normalize is the identity outside the browser-normalised
+	// set; that is a fact about Normalize's structure, decided here
+	r.rule("R2.2", "normalisation tables: browser-normalised methods and safelisted methods are exactly Fetch's; Normalize upper-cases exactly those (so a reported forbidden method is spelled as supplied)", 3)
+	normalisationTables(ctx, r, "R2.2")
 	for _, f := range sortedKeys(val.Lists) {
 		t := val.Lists[f]
 		l0(ctx, r, "R4.1", t)
@@ -749,11 +754,18 @@ func sortedSetAdd(ctx *Ctx, r *Result, rule string) {
 	changing := 0
 	for _, pa := range paths {
 		var storeElems, sortAt = -1, -1
+		insertedInPlace := false
 		for i, e := range pa.Effects {
 			if e.Kind == "store" && e.Args[0].Op == "faddr" && e.Args[0].Name == "elems" {
 				storeElems = i
 				v := e.Args[1]
-				if !(v.Op == "append" && len(v.Args) == 2 && v.Args[0].Key() == "param:set.elems" && v.Args[1].Op == "lit" && len(v.Args[1].Args) == 1 && v.Args[1].Args[0].Key() == "param:e") {
+				switch {
+				case v.Op == "append" && len(v.Args) == 2 && v.Args[0].Key() == "param:set.elems" && v.Args[1].Op == "lit" && len(v.Args[1].Args) == 1 && v.Args[1].Args[0].Key() == "param:e":
+					// appended; must be sorted afterwards
+				case shapeSorted(v, "param:set.elems", nil) && v.Op == "call" && len(v.Args) == 3 && v.Args[2].Op == "lit" && len(v.Args[2].Args) == 1 && v.Args[2].Args[0].Key() == "param:e":
+					// inserted at the position a binary search for it returned: sorted by construction
+					insertedInPlace = true
+				default:
 					bad = "elems is not extended by exactly the new element: " + v.Key()
 				}
 			}
@@ -763,7 +775,7 @@ func sortedSetAdd(ctx *Ctx, r *Result, rule string) {
 		}
 		if storeElems >= 0 {
 			changing++
-			if sortAt < storeElems {
+			if sortAt < storeElems && !insertedInPlace {
 				bad = "elems is extended without being re-sorted afterwards"
 			}
 			if !pa.Has("call:slices.BinarySearch(param:set.elems, param:e)#1", false) {
